@@ -255,6 +255,12 @@ def collect(ctx, policy):
                     if not ac:
                         ctx.inconclusive.append({"job": job, "case": cname, "why": "%d truncated paths: %s" % (n, oc)})
                     continue
+                if oc.startswith("worker-died") and policy.get("worker_died_is_violation"):
+                    # the process running the code under test was terminated (std::terminate / abort / signal / sanitizer)
+                    ctx.candidates.append(dict(case=cname, name="outcome:process-terminated", kind="outcome", verdict="sat", scope="", site="", model=None, path="",
+                                               detail="the process executing this case died (std::terminate, abort, signal or sanitizer report): %s" % rec["stderr_tail"][-300:],
+                                               binary=rec["binary"], profile=rec["profile"], count=n))
+                    continue
                 if oc.startswith("unsupported:") or oc.startswith("z3exception:") or oc.startswith("worker-died") or oc.startswith("replay-divergence"):
                     ctx.inconclusive.append({"job": job, "case": cname, "why": "%d paths ended with %s" % (n, oc)})
                     continue
